@@ -189,7 +189,7 @@ func (t *TabList) Add(entries ...tablist.Entry) error {
 		if err != nil {
 			return fmt.Errorf("error adding tab list entry %s: %w", entry.Profile(), err)
 		}
-		if len(pkt.ActionSet) == 0 {
+		if pkt == nil || len(pkt.ActionSet) == 0 {
 			continue
 		}
 		err = t.Viewer.BufferPacket(pkt)
